@@ -87,7 +87,9 @@ def finalize_rules(chk, S, r1, r3):
             resc = [m for m in mcalls(everything, meth) if m.args[0] is atom]
             raw_uses = [x for x in T.subterms(everything) if any(a is atom for a in x.args) and not (x.op == "mcall" and x.args[1] == meth) and x.op != "attr"]
             okr = len(resc) >= 1 and all(len(m.args) == 3 and m.args[2] is scale for m in resc) and not raw_uses
-            r3.require(okr if (uses or lbl != "p0.marginal") else True, f"{name} rescales {lbl}", "every use goes through rescale with the calibrated scale",
+            if not uses and lbl == "p0.marginal":
+                continue  # the initial marginal is not part of this strategy's result: nothing to decide
+            r3.require(okr, f"{name} rescales {lbl}", "every use goes through rescale with the calibrated scale",
                        f"{lbl}: rescale calls {[T.show(m, 2) for m in resc]}, unscaled uses {[T.show(x, 2) for x in raw_uses[:2]]}", EST)
         sol = out[1] if isinstance(out, (tuple, list)) and len(out) == 2 else None
         r1.require(isinstance(sol, Rec) and sol.fields.get("posterior") is full and out[0] is A("marginals"), f"{name} result", "(marginals, SmoothingSolution(posterior=full posterior, filtering=...))", f"{T.show(out, 2)}", EST)
@@ -166,6 +168,32 @@ def sequence_rules(chk, S, r1):
                     i = b.args[1][0] if isinstance(b.args[1], tuple) else b.args[1]
                     found = (i == want)
         r1.require(found, "MarkovSequence.remove_filtering_distributions index", f"keeps marginal[{want}] for reverse={reverse}", f"{T.show(res, 4)}", EST, {"reverse": reverse})
+        # the result keeps the conditionals and the direction
+        r1.require(isinstance(res, Rec) and res.fields.get("conditional") is ms.fields["conditional"] and res.fields.get("reverse") is reverse, "MarkovSequence.remove_filtering_distributions keeps conditionals and direction",
+                   "MarkovSequence(marginal[idx], self.conditional, reverse=self.reverse)", f"{T.show(res, 3)}", EST, {"reverse": reverse})
+    # the other arm of both rank tests: a sequence that carries one marginal only is returned unchanged; a sequence that carries filtering marginals is
+    # stripped before its marginals are evaluated
+    for reverse in (True, False):
+        it = S.interp()
+        ms = rec_of_atoms(it, MS, "ms", {"reverse": reverse, "marginal": T.atom("ms3.marginal", ndims={"mean_flat": 1}), "conditional": T.atom("ms3.conditional", ndims={"noise.mean_flat": 2})})
+        res = call(it, method(it, ms, "remove_filtering_distributions"))
+        r1.require(res is ms, "MarkovSequence.remove_filtering_distributions without filtering marginals", "returns the sequence unchanged", f"{T.show(res, 3)}", EST, {"reverse": reverse})
+        it = S.interp()
+        ms = rec_of_atoms(it, MS, "ms", {"reverse": reverse, "marginal": T.atom("ms4.marginal", ndims={"mean_flat": 2}), "conditional": T.atom("ms4.conditional", ndims={"noise.mean_flat": 2})})
+        got = []
+
+        def em_hook(itp, fn, a, kw, site, _g=got):
+            from ..interp import _MISSING
+
+            _g.append(a[0])
+            if len(_g) > 1:
+                return A("marginals_of_the_stripped_sequence")
+            return _MISSING
+
+        it.method_hooks[EST + ".MarkovSequence.evaluate_marginals"] = em_hook
+        res = call(it, method(it, ms, "evaluate_marginals"))
+        ok = len(got) == 2 and isinstance(got[1], Rec) and got[1].fields["conditional"] is ms.fields["conditional"] and got[1].fields["marginal"] is not ms.fields["marginal"] and res is A("marginals_of_the_stripped_sequence")
+        r1.require(ok, "MarkovSequence.evaluate_marginals with filtering marginals", "delegates to remove_filtering_distributions().evaluate_marginals() and returns its result", f"{len(got)} calls, result {T.show(res, 3)}", EST, {"reverse": reverse})
     # from_grid: conditionals from np.diff(grid)
     it = S.interp()
     cv = it.class_value(MS)
@@ -248,7 +276,7 @@ def fixed_grid_rules(chk, S, r2):
                 env2.declare(fsf, ("N", T_fin))
             m1, c1 = posterior_types(env2, p1)
             if strategy == "strategy_filter":
-                r2.require(True, f"{name} contract", "filters do not use posterior1", config=cfg, where=FIXED)
+                pass  # filters do not use posterior1: nothing to decide
             else:
                 okc = m1 is not None and TD.same(m1[1], T_fin) and c1 is not None and (c1[0] == "CI" or (c1[0] == "C" and TD.same(c1[1], T_fin) and TD.same(c1[2], T_fin)))
                 r2.require(okc, f"{name} contract", f"resume state at the last grid point: marginal {TD.show_type(m1)}, backward {TD.show_type(c1)}",
